@@ -9,6 +9,7 @@ import (
 	"encoding/json"
 	"fmt"
 	"os"
+	"reflect"
 	"sort"
 	"strings"
 
@@ -367,8 +368,26 @@ func hostCall(pooled bool) *ugo.Function {
 		for i := 1; i < c.Len(); i++ {
 			args = append(args, c.Get(i))
 		}
-		return inv.Invoke(args...)
+		return hostInvoke(inv, args)
 	}}
+}
+
+// hostInvoke calls the function the way a host with an argument buffer of its own does: the buffer has
+// spare capacity, is looked at after the call (the callee must not have written into it) and is then
+// re-used for something else (whatever the callee kept must not live in it).
+func hostInvoke(inv *ugo.Invoker, args []ugo.Object) (ugo.Object, error) {
+	buf := append(make([]ugo.Object, 0, len(args)+4), args...)
+	ret, err := inv.Invoke(buf...)
+	for i := range args {
+		if !reflect.DeepEqual(buf[i], args[i]) {
+			return nil, fmt.Errorf("the callee changed argument %d in the caller's argument buffer: %v", i, buf[i])
+		}
+	}
+	buf = buf[:cap(buf)]
+	for i := range buf {
+		buf[i] = ugo.String("host-buffer-reused")
+	}
+	return ret, err
 }
 
 // hostSeq is the Go function behind cbseq / cbseq2: one Invoker, acquired once (or not pooled),
@@ -390,7 +409,7 @@ func hostSeq(pooled bool) *ugo.Function {
 		out := ugo.Array{}
 		for _, l := range lists {
 			args, _ := l.(ugo.Array)
-			ret, err := inv.Invoke(args...)
+			ret, err := hostInvoke(inv, args)
 			if err != nil {
 				if o, ok := err.(ugo.Object); ok {
 					out = append(out, o)
